@@ -52,18 +52,20 @@ def run(ctx):
         witness.run_set(ctx, "C03", ["w6_forge_entity_new", "w6_forge_entity_tuple", "w6_forge_generation"])
 
 
-def run_config(ctx, facts):
+def run_config(ctx, facts, R1="C03-R1", R2="C03-R2", only=None, anchors=None, site_floor=SITE_FLOOR):
+    """only: substring a body path must contain to be examined (C13 reuses this pack for storage::restrict)"""
+    anchors = ANCHORS if anchors is None else anchors
     alive = AliveClass(facts)
     sinks = IndexSinks(facts)
-    ctx.anchor("C03-R1", "Allocator::is_alive", facts.body("world::entity::Allocator::is_alive"))
-    ctx.anchor("C03-R1", "EntitiesRes::is_alive in the alive class", "world::entity::EntitiesRes::is_alive" in alive.members)
+    ctx.anchor(R1, "Allocator::is_alive", facts.body("world::entity::Allocator::is_alive"))
+    ctx.anchor(R1, "EntitiesRes::is_alive in the alive class", "world::entity::EntitiesRes::is_alive" in alive.members)
     ctx.note("[%s] alive class: %s" % (facts.config, sorted(alive.members)))
     ctx.note("[%s] derived index sinks: %s; field sinks: %s" % (
         facts.config, sorted(k for k, v in sinks.sinks.items() if v), sorted(sinks.field_sinks)))
     guarded_bodies = set()
     nsites = 0
     for b in facts.bodies:
-        if b.self_ty == "world::entity::Allocator":
+        if b.self_ty == "world::entity::Allocator" or (only and only not in b.path):
             continue
         sites = []
         for bb, t in b.calls():
@@ -84,30 +86,31 @@ def run_config(ctx, facts):
             per_callee[what] = n + 1
             key = "%s -> %s #%d" % (b.path, what, n)
             if b.path in EXCEPTIONS:
-                ctx.ob("C03-R1", key, True, b.loc(line=line), "named exception: " + EXCEPTIONS[b.path], nontrivial=False)
+                ctx.ob(R1, key, True, b.loc(line=line), "named exception: " + EXCEPTIONS[b.path], nontrivial=False)
                 continue
             ok, edges = alive.guarded(b, bb, x)
             nsites += 1
             if ok:
                 guarded_bodies.add(b.path)
-                ctx.ob("C03-R1", key, True, b.loc(line=line))
+                ctx.ob(R1, key, True, b.loc(line=line))
             else:
                 path = b.path_to(bb, {e["true_edge"] for e in edges})
-                ctx.ob("C03-R1", key, False, b.loc(line=line),
+                ctx.ob(R1, key, False, b.loc(line=line),
                        "index of entity handle %s reaches %s without a dominating is_alive test of that handle "
                        "(%d is_alive tests of this handle in the body); path: %s" % (fmt_org(b, x), what, len(edges), b.fmt_path(path)))
-    ctx.floor("C03-R1", "guarded handle->index->raw-access sites", nsites, SITE_FLOOR)
+    ctx.floor(R1, "guarded handle->index->raw-access sites", nsites, site_floor)
 
     # R2 + anchors
-    for base, name in ANCHORS:
+    for base, name in anchors:
         bs = [b for b in facts.methods_named(base, name) if not b.trait_item and any(strip_ref(b.ltype[i]) == ENTITY for i in range(1, b.argc + 1))]
-        ctx.anchor("C03-R1", "%s::%s" % (base, name), bs)
+        ctx.anchor(R1, "%s::%s" % (base, name), bs)
         for b in bs:
             if name != "contains":
-                ctx.ob("C03-R1", "anchor-guarded:%s" % b.path, b.path in guarded_bodies, b.loc(),
+                ctx.ob(R1, "anchor-guarded:%s" % b.path, b.path in guarded_bodies, b.loc(),
                        "public access path %s has no is_alive-guarded raw access" % b.path, nontrivial=False)
     targets = [b for b in facts.bodies if b.path in guarded_bodies]
-    targets += [b for b in facts.methods_named("storage::Storage", "contains") if b not in targets and not b.trait_item]
+    if not only:
+        targets += [b for b in facts.methods_named("storage::Storage", "contains") if b not in targets and not b.trait_item]
     # evidence only: bodies that merely delegate a handle to a checked access path
     deleg = set()
     for b in facts.bodies:
@@ -142,7 +145,7 @@ def run_config(ctx, facts):
             ok, edges = alive.guarded(b, bb, x)
             key = "%s returns %s #%d" % (b.path, positive, n)
             n += 1
-            ctx.ob("C03-R2", key, ok, b.loc(line=line),
+            ctx.ob(R2, key, ok, b.loc(line=line),
                    "" if ok else "positive result %s is constructed on a path without is_alive(%s)" % (positive, fmt_org(b, x)))
 
 
